@@ -97,6 +97,18 @@ def generate(rng, tier, n):
             cases.append(_case([["mkq", 1, anc], ["defclass", 20, parent], ["new", 0, 20], ["evalq", 1],
                                 ["defclass", 21, parent], ["new", 1, 21], ["query", anc]],
                                ("family", "late-class"), "exhaustive"))
+    # distinct classes with the same module and __name__ below one base (type()-created / re-executed class statements):
+    # siblings, parent and child, different branches; instances of each; queries over the base and over each class
+    for base in (0, 4, 2):
+        cases.append(_case([["defclassn", 20, base, 1], ["defclassn", 21, base, 1], ["new", 0, 20], ["new", 1, 21], ["new", 2, base],
+                            ["query", base], ["query", 20], ["query", 21], ["drop", 1], ["query", base]],
+                           ("family", "same-name"), "exhaustive"))
+        cases.append(_case([["defclassn", 20, base, 1], ["new", 0, 20], ["query", base], ["defclassn", 21, 20, 1], ["new", 1, 21],
+                            ["defclassn", 22, base, 1], ["new", 2, 22], ["query", base], ["query", 20], ["query", 22]],
+                           ("family", "same-name"), "exhaustive"))
+    cases.append(_case([["defclassn", 20, 5, 1], ["defclassn", 21, 6, 1], ["defclassn", 22, 1, 1], ["new", 0, 20], ["new", 1, 21],
+                        ["new", 2, 22], ["new", 3, 7], ["query", 4], ["query", 0], ["query", 5], ["query", 6]],
+                       ("family", "same-name"), "exhaustive"))
     # temporaries created and discarded back to back (ids are recycled before the next sweep)
     for c in (1, 2, 3, 7):
         for k in (2, 5, 9):
@@ -162,8 +174,10 @@ def generate(rng, tier, n):
             ops += [["qnext", key]] * rng.randint(0, 6)
         ops.append(["query", rng.choice([0, 2])])
         tags = ["random"]
-        if any(op[0] == "defclass" for op in ops):
+        if any(op[0] in ("defclass", "defclassn") for op in ops):
             tags.append("late-class")
+        if sum(1 for op in ops if op[0] == "defclassn") > 1:
+            tags.append("same-name")
         if any(op[0] == "churn" for op in ops):
             tags.append("churn")
         if any(op[0] == "qstart" for op in ops):
